@@ -60,3 +60,13 @@ func init() {
 		Assume: schedExploreAssume,
 	}
 }
+
+func init() {
+	cfgs["C11"] = checkCfg{
+		Variant: "sched", Validate: true,
+		Stride: map[string]int{"quick": 50, "thorough": 100},
+		Budget: dur(170, 1700),
+		Rule:   "all nestings of depth <= 3 (quick) / <= 4 (thorough) over {loop, while, for, block, if, else, match arm, try body, catch body, call, if-expression operand, closure} around each exit in {break, continue, return, return value, throw, fatal index error, none}; every level prints markers before/after its child, a global is mutated before the exit, and the program continues with reads of locals, another try/throw and a loop; oracle: output, outcome, caught message and position equal the reference evaluator on BOTH backends, VM residue (operand stack, memory pointer, frames, handlers, cores, locks) is zero at normal exit; distinct = distinct VM observation records",
+		Assume: schedAssume,
+	}
+}
